@@ -19,6 +19,18 @@ CHECKS = {
         design="4/C10"),
 }
 
+CHECKS["C01"] = dict(
+    technique="Rocq theorems over an executable model of route_message/_handle_call (case analysis over every "
+              "branch) + dispatch correspondence against real ChargePoint objects",
+    text="C01_exactly_one_reply / C01_silent_otherwise / C01_no_escape are proved for every frame outcome, every route "
+         "set over the version's actions and every handler behaviour (function-valued handlers), using the crash-freedom "
+         "of all shipped schemas re-checked from the regenerated tables. The model is tied to the code by running both on "
+         "the same frames (structured + malformed streams) and comparing replies, ids and escapes.",
+    note="Trusted: Coq kernel + VM, translator, the hand model of charge_point.py/messages.py control flow (tied by "
+         "the correspondence only), CPython json (frames enter the model as json.loads parsed them). Excluded by "
+         "hypothesis: handlers returning non-dataclass values; connection writes that fail.",
+    design="4/C01")
+
 PENDING_REASON = "check not built yet in this round (work in progress; see DESIGN.md section 9)"
 
 
